@@ -22,6 +22,7 @@ RULE = (
     'nearest image.  Non-trivial = at least one collected point whose symmetry image of the site lies outside '
     '[0,1) and at least 5 points collected; distinct = SHA-1 of (group, lattice, site, positions).'
 )
+RULE += ' Added in rounds 6-9: positions bitwise on site centres / images; trajectory cells expanded / compressed by about 1 % or reoriented.'
 ASSUMPTIONS = [
     'pymatgen space-group operation tables and SymmOp.operate / inverse are trusted',
     'lattices are generated compatible with the group (checked with SpaceGroup.is_compatible), so operations are isometries',
